@@ -1,11 +1,14 @@
 """C05 -- quorum reads return only what enough distinct peers agree on
 (ant-networking: event/kad.rs, cmd.rs GetNetworkRecord, driver.rs GetRecordCfg, lib.rs
 get_record_from_network / handle_split_record_error)."""
+import contextlib
 import itertools
 import json
 import os
 import re
+import shutil
 
+from vpc import core
 from vpc.core import REPO, cN, cbool, clist, copt
 
 IMPORTS = "Require Import V.model.GetRecord."
@@ -776,15 +779,49 @@ def gen(ctx):
     cases = []
     for q in (["one"], ["maj"], ["all"], ["n", 1], ["n", 2], ["n", 7], ["n", 2 ** 64 - 1]):
         cases.append({"kind": "quorum", "q": q})
-    for _ in range(1500 if quick else 12000):
+    for _ in range(1500 if quick else 10000):
         cases.append(gen_hist(rng, deep=not quick))
-    for _ in range(300 if quick else 2500):
-        cases.append(gen_split(rng, 16 if quick else 48))
+    for _ in range(300 if quick else 1000):
+        cases.append(gen_split(rng, 16 if quick else 32))
     for _ in range(300 if quick else 2000):
         cases.append(gen_target(rng))
     if not quick:
-        cases += exhaustive_orders(rng, 6000)
+        cases += exhaustive_orders(rng, 5000)
     return cases
+
+
+@contextlib.contextmanager
+def private_coq_objects(ctx):
+    """Evaluate the cases against a private, consistent snapshot of the compiled model.
+
+    coq/ is shared: another property's check may regenerate gen/Consts.v and rebuild Consts.vo while this
+    check's harness runs, after which coqc rejects model/GetRecord.vo ("inconsistent assumptions") although
+    nothing about C05 changed.  Under the coq lock the model is brought up to date and the four objects the
+    case files load are copied; vpc.core.COQ points at the copy while the pipeline runs (core.py unchanged)."""
+    snap = os.path.join(core.CACHE, "c05_snap_%d" % os.getpid())
+    shutil.rmtree(snap, ignore_errors=True)
+    objs = ("lib/Strs.vo", "lib/Harness.vo", "gen/Consts.vo", "model/GetRecord.vo")
+    ok = False
+    try:
+        for d in ("lib", "gen", "model", "cases"):
+            os.makedirs(os.path.join(snap, d))
+        with core.Lock("coq"):
+            rc, _ = core.sh("timeout 900 make %s 2>&1" % " ".join(o for o in objs if not o.startswith("gen/")),
+                            cwd=core.COQ, timeout=930)
+            if rc == 0:
+                for f in objs:
+                    shutil.copy(os.path.join(core.COQ, f), os.path.join(snap, f))
+                ok = True
+    except OSError:
+        ok = False
+    old = core.COQ
+    if ok:
+        core.COQ = snap
+    try:
+        yield
+    finally:
+        core.COQ = old
+        shutil.rmtree(snap, ignore_errors=True)
 
 
 def run(ctx):
@@ -801,7 +838,8 @@ def run(ctx):
         "tools/props/C05.py (generator, oracle, canonicaliser)"])
     cases = ctx.corpus() + ([] if ctx.replay else gen(ctx))
     ctx.cov["exhaustive"] = ctx.tier != "quick"
-    ctx.pipeline(cases, binary, oracle_factory(close_group_size()), model_term, IMPORTS, nontrivial=nontrivial,
-                 show=show, shard_size=60,
-                 relation="handle_network_cmd/handle_kad_event/get_record_from_network/handle_split_record_error == "
-                          "GetRecord.{step, api_loop, handle_split} (lock-step, incl. pending_get_record)")
+    with private_coq_objects(ctx):
+        ctx.pipeline(cases, binary, oracle_factory(close_group_size()), model_term, IMPORTS, nontrivial=nontrivial,
+                     show=show, shard_size=60,
+                     relation="handle_network_cmd/handle_kad_event/get_record_from_network/handle_split_record_error == "
+                              "GetRecord.{step, api_loop, handle_split} (lock-step, incl. pending_get_record)")
